@@ -42,7 +42,7 @@ class C05(Spec):
     prop = "C05"
     coq_targets = ["Props/C05.vo"]
     prop_module = "Props.C05"
-    theorems = ['C05_beyond_transmitted_is_absent_partial', 'C05_no_extension_is_absent_partial', 'C05_skip_nothing_partial', 'C05_skip_absent_step_partial', 'C05_skip_present_step_partial']
+    theorems = ['C05_beyond_transmitted_is_absent_partial', 'C05_no_extension_is_absent_partial', 'C05_skip_nothing_partial', 'C05_skip_absent_step_partial', 'C05_skip_present_step_partial', 'C05_forward', 'C05_backward', 'C05_sequence_compat', 'C05_sentinel_forward', 'C05_sentinel_backward']
     builds = [("default", "dev"), ("default", "release")]
     timeout_per_chunk = 600
     xcheck_n = 60
